@@ -77,6 +77,7 @@ def run(chk, tier):
         prog = mir.Program(facts.load_mir(feats))
         check_writer(chk, prog, prog.config)
         check_form(chk, prog, prog.config)
+        check_overrides(chk, prog, prog.config)
     n = len({i["construct"] for i in chk.instances if i["rule"] == "R6.1"})
     chk.floor("R6.1", n, 17, "17 model types")
     n = len({i["construct"] for i in chk.instances if i["rule"] == "R6.2"})
@@ -132,6 +133,35 @@ def check_writer(chk, prog, cfg):
                            "tag %d -> %s; V14: tag %d = %s%s" % (tag, (got[0], [s for _, s, _ in got[1]], got[2]) if got else None, tag, vname, syms), cfg)
             extra = sorted(set(g[1]) - set(want))
             chk.expect(ok_all and not extra, "R6.1", "type:" + short, where, "%d tags%s" % (len(g[1]), (" extra: %s" % extra) if extra else ""), cfg)
+
+
+def check_overrides(chk, prog, cfg):
+    chk.rule("R6.4", "the Encode methods other than encode_to (encode / using_encoded / size_hint overrides emitted for single-field types) forward to "
+             "the same method of the type's only encoded field: every entry point writes the same bytes")
+    from ..lib import paths
+    from ..lib.mir import is_call, unref, path_str
+    for short, path in sorted(MODEL.items()):
+        imp = grammar.impl_of(prog, grammar.ENC, path)
+        if imp is None:
+            continue
+        try:
+            g = grammar.writer(prog, path)
+        except grammar.Unrecognised:
+            continue
+        for it in imp["items"]:
+            if it["name"] not in ("encode", "using_encoded", "encoded_size"):
+                continue
+            b = prog.body(it["path"])
+            if b is None:
+                continue
+            rt = b.return_term()
+            ok = False
+            if g[0] == "seq":
+                data = [f for f, s_, c in g[1] if s_ != "phantom"]
+                if len(data) == 1 and is_call(rt, grammar.ENC + "::" + it["name"]) and len(b.calls()) == 1:
+                    ap = paths.access_path(b, rt[2][0])
+                    ok = ap is not None and ap[0] == ("arg", 1, b.names.get(1)) and ap[1] == data[0]
+            chk.expect(ok, "R6.4", "override:%s::%s" % (short, it["name"]), b.where(), "%s = %s" % (it["name"], path_str(rt)[:120]), cfg)
 
 
 def check_form(chk, prog, cfg):
